@@ -6,6 +6,7 @@ mod exec;
 mod framework;
 mod generate;
 mod mon;
+mod native;
 mod pipeline;
 mod sem;
 mod tc;
@@ -25,6 +26,11 @@ fn main() {
     }
     match args[1].as_str() {
         "dump" => dump(&args),
+        "selftest" => {
+            pipeline::install_quiet_panic_hook();
+            let h = std::thread::Builder::new().stack_size(1 << 30).spawn(checks::selftest::run).unwrap();
+            std::process::exit(h.join().unwrap_or(2));
+        }
         "worker" => {
             pipeline::install_quiet_panic_hook();
             // worker <check> <tier> <shard> <n> <out> [extra...]
